@@ -25,7 +25,7 @@ OUTSIDE = ['bit-level float agreement (1e-9 relative) is replaced by exact agree
 ASSUMPTIONS = ['np.linalg.pinv / svd are arbitrary but identical for both libraries (memoised stub)', 'np.linalg.inv: exact adjugate, n <= 3, '
                'non-singular', 'summary mode for Exp/Log inside Screw/Cartesian trajectories (both libraries; the primitives themselves are compared unsummarised)']
 EXPLORER_DEFAULTS = {'quick': dict(prove_timeout_ms=30000, time_budget_s=900, max_paths=80, max_decisions=120),
-                     'thorough': dict(prove_timeout_ms=120000, time_budget_s=3000, max_paths=400, max_decisions=200)}
+                     'thorough': dict(prove_timeout_ms=120000, time_budget_s=1200, max_paths=400, max_decisions=200)}
 TOL = '1e-9'
 
 
